@@ -48,6 +48,8 @@ ALPHABET = [
     ("password " + S1, {"pwd": [1]}),
     ("  snmp-server community " + S2 + " ro ", {"pwd": [2]}),
     ("enable password " + S1, {"pwd": [2]}),
+    ("  \u00a0username admin password 0 " + S1 + "\u3000 ", {"pwd": [4]}),
+    ("\u2003hostname seattle-core\u00a0", {"word": [1]}),
     ('  secret "' + S1 + '"; ## SECRET-DATA', {"pwd": [1], "wrap": {1: ('"', '";')}}),
     ('\t{ secret "' + S1 + '"; timeout 5; }', {"pwd": [2], "wrap": {2: ('"', '";')}}),
     ('   "enable secret ' + S2 + '", "no ip http server"', {"pwd": [2], "wrap": {2: ("", '",')}}),
@@ -105,11 +107,11 @@ def split_keep(text):
 
 
 def lws(s):
-    return s[: len(s) - len(s.lstrip(" \t"))]
+    return s[: len(s) - len(s.lstrip())]
 
 
 def tws(s):
-    return s[len(s.rstrip(" \t")):]
+    return s[len(s.rstrip()):]
 
 
 def judge_line(F, src, allowed, out, ctx, res, rc):
